@@ -141,6 +141,14 @@ impl InnerTy for Vec<i64> {
         Val::V(self.clone())
     }
 }
+impl InnerTy for ulib::FBox {
+    fn from_val(v: &Val) -> Self {
+        ulib::FBox(v.as_f32())
+    }
+    fn to_val(&self) -> Val {
+        Val::F32(self.0.to_bits())
+    }
+}
 impl InnerTy for ulib::Point {
     fn from_val(v: &Val) -> Self {
         match v {
@@ -158,8 +166,11 @@ pub enum Fmt {
     Json,
     Ron,
     MsgPack,
+    /// RON written with explicit struct names (`Name(5)`): the only one of the formats that checks the
+    /// name passed to `deserialize_newtype_struct` / `serialize_newtype_struct`
+    RonNamed,
 }
-pub const ALL_FMT: [Fmt; 3] = [Fmt::Json, Fmt::Ron, Fmt::MsgPack];
+pub const ALL_FMT: [Fmt; 4] = [Fmt::Json, Fmt::Ron, Fmt::MsgPack, Fmt::RonNamed];
 
 #[derive(Clone, Copy, Debug, PartialEq, Eq, Hash, PartialOrd, Ord)]
 pub enum Pos {
@@ -207,6 +218,9 @@ pub struct Views {
     pub display_fmt: Vec<(String, String, String)>,
     pub clone_inner: Option<Val>,
     pub clone_eq: Option<bool>,
+    /// `t == t` and `t.partial_cmp(&t)` on one and the same object
+    pub eq_self: Option<bool>,
+    pub partial_self: Option<Option<std::cmp::Ordering>>,
     pub iter_val: Option<Vec<Val>>,
     pub iter_ref: Option<Vec<Val>>,
     pub inner_iter: Option<Vec<Val>>,
